@@ -18,7 +18,7 @@ CHECKS = {
          "Every swap of the history workload (both token programs, v1/v2, all limit classes) is judged on observed balance deltas and pool prices; a third of the successful swaps are re-executed on clones of the pre-state with the slippage threshold one below, at and one above the realised amount, and only the permitted ones may succeed, byte-identically.",
          SVM, "DESIGN.md#c03"),
  "C04": ("fault enumeration at the transaction boundary: instruction catalogue x authority-variant table executed on cloned state",
-         "Every privileged instruction (catalogue cross-checked against the program's `pub fn` list at run time) has a golden invocation that succeeds; then missing signature, foreign signer, one-bit-off keys, the authority of another config/pool/tier (alone and together with its own config / tier account), another position holder with their own token account, delegates with amount 0/1/2, empty token accounts, token accounts of other positions, delegate key without delegate signature, forged token accounts owned by non-token programs (random id and ids sharing a prefix / suffix with the token programs) are executed on clones; everything except the documented delegate-with-one-token must fail.",
+         "Every privileged instruction (catalogue cross-checked against the program's `pub fn` list at run time) has a golden invocation that succeeds; then missing signature, foreign signer, one-bit-off keys, the authority of another config/pool/tier (alone and together with its own config / tier account), another position holder with their own token account, delegates with amount 0/1/2, empty token accounts, token accounts of other positions, delegate key without delegate signature, forged token accounts owned by non-token programs (random id and ids sharing a prefix / suffix with the token programs) are executed on clones; everything except the documented delegate-with-one-token must fail. The authority recorded at creation must be the designated one (not the rent payer). Hand-over: after each of the nine set-authority instructions has handed its role to a new key (and, for self-rotating roles, after the new holder has handed it on again), every setting instruction of the catalogue is re-run with the previous, the new and each former holder: a former holder is never accepted, the new holder is accepted for that role only, and no other role is disturbed.",
          SVM + "; the table of which slot is the authority is written in the harness from the property statement", "DESIGN.md#c04"),
  "C05": ("invariant monitor over decoded on-chain state after every instruction of hostile histories",
          "After every successful instruction of seeded histories the pool's liquidity, every tick's net/gross/initialized flag in every tick array (both encodings, harness-owned decoders) are recomputed from the Position accounts found by scanning the bank and compared; the workload includes Pinocchio repositions (also onto degenerate / inverted ranges, which must be refused), range resets, bundles and locks. Thorough adds the workload under an AddressSanitizer build.",
